@@ -30,6 +30,44 @@ impl<'s> SpannedIter<'s, Tok<'s>> {
     { unimplemented!() }
 }
 /*@type lang/surface/src/textual/lexer.rs :: struct LexicalTokens @*/
+
+// ---- reference discipline of the tooling lexer (from its documentation: "retains comments and combines a nested block
+// comment into one source range"): state = (comment depth d, recorded start cs); each item either changes the state or EMITS ----
+pub open spec fn emits(d: int, it: Item) -> bool {
+    match it.0 {
+        Err(_) => false,
+        Ok(Tok::CommentOpen) => false,
+        Ok(Tok::CommentClose) => d == 1 || d == 0,          // closes the outermost comment / is an operator outside comments
+        Ok(Tok::Unknown(_)) => false,
+        Ok(_) => d == 0,
+    }
+}
+pub open spec fn d_step(d: int, it: Item) -> int {
+    match it.0 {
+        Ok(Tok::CommentOpen) => d + 1,
+        Ok(Tok::CommentClose) => if d > 0 { d - 1 } else { d },
+        _ => d,
+    }
+}
+pub open spec fn cs_step(d: int, cs: Option<usize>, it: Item) -> Option<usize> {
+    match it.0 {
+        Ok(Tok::CommentOpen) => if d == 0 { Some(it.1.start) } else { cs },
+        Ok(Tok::CommentClose) => if d == 1 { None } else { cs },
+        _ => cs,
+    }
+}
+// number of items consumed before the first emitting one (== s.len() if none emits)
+pub open spec fn silent(d: int, s: Seq<Item>) -> int decreases s.len() {
+    if s.len() == 0 { 0 } else if emits(d, s[0]) { 0 } else { 1 + silent(d_step(d, s[0]), s.skip(1)) }
+}
+pub open spec fn d_before_emit(d: int, s: Seq<Item>) -> int decreases s.len() {
+    if s.len() == 0 { d } else if emits(d, s[0]) { d } else { d_before_emit(d_step(d, s[0]), s.skip(1)) }
+}
+pub open spec fn cs_before_emit(d: int, cs: Option<usize>, s: Seq<Item>) -> Option<usize> decreases s.len() {
+    if s.len() == 0 { cs } else if emits(d, s[0]) { cs } else { cs_before_emit(d_step(d, s[0]), cs_step(d, cs, s[0]), s.skip(1)) }
+}
+
+
 impl<'source> LexicalTokens<'source> {
     // representation invariant: inside a block comment (and before the end of input) its opening offset is recorded;
     // outside one nothing is recorded
@@ -53,6 +91,12 @@ impl<'source> LexicalTokens<'source> {
        self.inner.remaining().len() <= old(self).inner.remaining().len(),
        self.source_len == old(self).source_len,
        self.inner.remaining() == old(self).inner.remaining().skip(old(self).inner.remaining().len() - self.inner.remaining().len()),
+       // [LT-DISCIPLINE-inductive] what has been consumed so far is exactly the silent prefix of the reference discipline
+       silent(old(self).comment_depth as int, old(self).inner.remaining())
+         == (old(self).inner.remaining().len() - self.inner.remaining().len()) + silent(self.comment_depth as int, self.inner.remaining()),
+       d_before_emit(old(self).comment_depth as int, old(self).inner.remaining()) == d_before_emit(self.comment_depth as int, self.inner.remaining()),
+       cs_before_emit(old(self).comment_depth as int, old(self).comment_start, old(self).inner.remaining())
+         == cs_before_emit(self.comment_depth as int, self.comment_start, self.inner.remaining()),
      decreases self.inner.remaining().len(),
 @*/
     requires
@@ -65,6 +109,23 @@ impl<'source> LexicalTokens<'source> {
         r is None ==> final(self).inner.remaining().len() == 0,
         // [LT-FRAME] items are consumed in order, nothing is pushed back
         final(self).inner.remaining() == old(self).inner.remaining().skip(old(self).inner.remaining().len() - final(self).inner.remaining().len()),
+        // [LT-DISCIPLINE] a token produced for a consumed item is produced for the FIRST emitting item of the reference discipline
+        // (nothing that should be shown is skipped, nothing inside a comment is shown); depth and recorded start follow it
+        r is Some && final(self).inner.remaining().len() > 0 ==> ({
+            let k = silent(old(self).comment_depth as int, old(self).inner.remaining());
+            let d = d_before_emit(old(self).comment_depth as int, old(self).inner.remaining());
+            let cs = cs_before_emit(old(self).comment_depth as int, old(self).comment_start, old(self).inner.remaining());
+            let it = old(self).inner.remaining()[k];
+            &&& 0 <= k < old(self).inner.remaining().len()
+            &&& final(self).inner.remaining().len() == old(self).inner.remaining().len() - k - 1
+            &&& final(self).comment_depth == d_step(d, it)
+            &&& final(self).comment_start == cs_step(d, cs, it)
+            // a block comment is ONE token from the outermost `/-` to its matching `-/`
+            &&& (d == 1 ==> cs is Some && r->Some_0.kind == LexicalTokenKind::Comment && r->Some_0.range.start == cs->Some_0 && r->Some_0.range.end == it.1.end)
+            &&& (d == 0 ==> r->Some_0.range == it.1)
+        }),
+        // [LT-NONE] None only if nothing in the rest of the input emits
+        r is None ==> silent(old(self).comment_depth as int, old(self).inner.remaining()) == old(self).inner.remaining().len(),
         // [LT-UNTERMINATED] at the end of input the recorded comment start is consumed (the token built from it goes through a
         // closure passed to Option::map, whose result Verus does not see: its presence and range are NOT proved)
         old(self).inner.remaining().len() == 0 ==> final(self).comment_start is None,
